@@ -16,8 +16,9 @@ RULE = ("every ordered forest with <= N entries (N=5 quick, 6 thorough; depth <=
         "cycling through all six value types x every distribution of the entries over 1-3 key tables x entry order inside the "
         "tables {parents first, children first}; every boundary value of every type (incl. strings / arrays of 0x7FF, 0x800, "
         "0x801 bytes stored as file objects) x key alphabet; a Free entry at every position; competing key tables with "
-        "sequence pairs {0,1,2,65535}^2; header sequence pairs likewise with a poisoned inactive header; chained second object "
-        "table. Oracle: as_dict() equals the model tree including Python types; item access equals as_dict. non-trivial = "
+        "sequence pairs {0,1,2,65535}^2; header sequence pairs likewise with a poisoned inactive header; object tables "
+        "chained 1-5 deep, fanned out or tail-linked; further flag bits {0x02,0x04,0x80,0xFE} on every value; strings whose "
+        "surrogate pairs straddle the 4 KiB / 8 KiB / 64 KiB marks of their file object. Oracle: as_dict() equals the model tree including Python types; item access equals as_dict. non-trivial = "
         "more than one key table, a Free entry, a file object, a competing table or a non-default header pair")
 ASSUMPTIONS = [
     "layout as documented in hyperv.py and transcribed in mc/builders/hyperv.py; the independent decoder in that module decodes "
@@ -35,8 +36,12 @@ VALUES = {
     B.T_UINT: [0, 1, 2 ** 63, 2 ** 64 - 1],
     B.T_DBL: [0.0, -0.0, 1.5, float("inf"), -2.5e-300],
     B.T_BOOL: [True, False],
-    B.T_STR: ["", "a", "héllo \U0001F98A", "x" * 0x3FF, "y" * 0x400, "z" * 0x401, "\U0001F98A" * 0x200],
-    B.T_ARR: [b"", b"\x00", bytes(range(256)), b"\xAA" * 0x7FF, b"\xBB" * 0x800, b"\xCC" * 0x801],
+    # strings whose surrogate pairs straddle the 4 KiB / 8 KiB / 64 KiB marks of the file object that holds them
+    B.T_STR: ["", "a", "héllo \U0001F98A", "x" * 0x3FF, "y" * 0x400, "z" * 0x401, "\U0001F98A" * 0x200,
+              "p" * 2047 + "\U0001F600" + "q" * 9, "p" * 4095 + "\U0001F600" + "q" * 9, "\U0001F600" + "p" * 4094 + "\U0001F600",
+              "r" * 8191 + "\U0001F98A" * 3, "s" * 32767 + "\U0001F600", "\u00e9" * 4096, "t" * 4097],
+    B.T_ARR: [b"", b"\x00", bytes(range(256)), b"\xAA" * 0x7FF, b"\xBB" * 0x800, b"\xCC" * 0x801,
+              bytes(range(256)) * 32, bytes(range(255)) * 33 + b"\x01", bytes(range(251)) * 270],
 }
 KEYS = ["k", "configuration", "schüssel-日本", "K" * 200, "é" * 120, "with space", "_ac6b8dc1-3257_"]
 SEQS = [0, 1, 2, 65535]
@@ -87,7 +92,7 @@ def shards(tier):
         k = {1: 1, 2: 1, 3: 2, 4: 8, 5: 16, 6: 64}[n]
         for i in range(k):
             out.append({"kind": "tree", "n": n, "slice": [i, k], "thin": tier == "quick" and n == 5})
-    out += [{"kind": "value"}, {"kind": "free"}, {"kind": "competing"}, {"kind": "headers"}, {"kind": "chain"}, {"kind": "high"}]
+    out += [{"kind": "value"}, {"kind": "flags"}, {"kind": "free"}, {"kind": "competing"}, {"kind": "headers"}, {"kind": "chain"}, {"kind": "high"}]
     return out
 
 
@@ -107,6 +112,14 @@ def run_shard(shard, ctx):
                     if (vi + ki) % 2 and ki not in (3, 4):
                         continue
                     run_case({"kind": "value", "type": t, "vi": vi, "key": ki}, ctx)
+    elif kind == "flags":
+        # further bits in the flag byte next to FileObjectPointer (0x02 occurs in real files): the value is decoded all the same
+        for fl in (0x02, 0x04, 0x80, 0xFE):
+            for t, vals in VALUES.items():
+                for vi in range(len(vals)):
+                    if t in (B.T_STR, B.T_ARR) and len(B.enc_value(t, vals[vi])) > 0x3000 and fl != 0x02:
+                        continue
+                    run_case({"kind": "value", "type": t, "vi": vi, "key": (vi + t) % len(KEYS), "flags": fl}, ctx)
     elif kind == "free":
         shape = forests(5)[17]
         for pos in range(0, 6):
@@ -135,6 +148,10 @@ def run_shard(shard, ctx):
             for fi in range(0, len(forests(n)), 3):
                 for nt in (1, 2, 3):
                     run_case({"kind": "chain", "n": n, "forest": fi, "ntables": nt}, ctx)
+        # object tables chained 1..5 deep (first -> A -> B ...), fanned out from the first table, or linked by their last entry
+        for depth, shape, nt in itertools.product((1, 2, 3, 5), ("chain", "fan", "tail"), (1, 2, 3)):
+            for fi in (1, 7, 20):
+                run_case({"kind": "chain", "n": 5, "forest": fi, "ntables": nt, "depth": depth, "shape": shape}, ctx)
 
 
 def _same(a, b):
@@ -179,6 +196,9 @@ def run_case(case, ctx):
         v = VALUES[t][case["vi"]]
         tree = {"root": (B.T_NODE, {KEYS[case["key"]]: (t, v), "sibling": (B.T_INT, 7)})}
         nontrivial = t in (B.T_STR, B.T_ARR) and len(B.enc_value(t, v)) - 4 >= 0x800
+        if case.get("flags"):
+            kw = dict(extra_flags=case["flags"])
+            nontrivial = True
         ctx.outcome("value")
     elif kind == "free":
         tree = tree_from_shape(forests(5)[17], 1)
@@ -225,6 +245,10 @@ def run_case(case, ctx):
         tree = tree_from_shape(forests(case["n"])[case["forest"]], 3)
         tree["configuration"][1]["bigleaf"] = (B.T_ARR, b"\x11" * 0x900)
         kw = dict(ntables=case["ntables"], second_object_table=True)
+        if case.get("depth"):
+            tree["configuration"][1]["bigstr"] = (B.T_STR, "w" * 0x500)
+            kw = dict(ntables=case["ntables"], object_table_chain=case["depth"], chain_shape=case["shape"],
+                      extra_replay_log=case["depth"] % 2 == 1)
         nontrivial = True
         ctx.outcome("object-table-chain")
     if kind == "high":
